@@ -36,8 +36,8 @@ let run (fn : string) (a : string list) : string * string =
   | "reverse", [s] -> show vs (reverse_im (arg_s s)), "ok:" ^ vs (reverse_spec (arg_s s))
   | "rep", s :: n :: r -> show vs (rep_im (arg_s s) (arg_i n) (opt arg_s r)),
                           (match rep_spec_opt (arg_s s) (arg_i n) (opt arg_s r) with Some b -> "ok:" ^ vs b | None -> "err:toolarge")
-  | "upper", [s] -> show vs (upper_im latin1_upper (arg_s s)), "ok:" ^ vs (upper_spec (arg_s s))
-  | "lower", [s] -> show vs (lower_im latin1_lower (arg_s s)), "ok:" ^ vs (lower_spec (arg_s s))
+  | "upper", [s] -> show vs (upper_im (arg_s s)), "ok:" ^ vs (upper_spec (arg_s s))
+  | "lower", [s] -> show vs (lower_im (arg_s s)), "ok:" ^ vs (lower_spec (arg_s s))
   | "find", s :: p :: r -> show pair (find_plain_im (arg_s s) (arg_s p) (opt arg_i r)), "ok:" ^ pair (find_spec (arg_s s) (arg_s p) (opt arg_i r))
   | _ -> failwith ("bad case: " ^ fn)
 
@@ -63,6 +63,7 @@ let terrs = function
   | TERange2 -> "err:range2"
   | TETooLarge -> "err:toolarge"
   | TEWrap -> "err:wrap"
+  | TEWrapPos -> "err:wrap"
   | TETooMany -> "err:toomany"
   | TEInvalid k -> "err:invalid:" ^ hex_of_z k
   | TEInjected -> "err:injected"
@@ -77,7 +78,6 @@ let dump (m : z -> value) (keys : z list) : string =
 let show_out f = function
   | ORet a -> "ok:" ^ f a
   | OFail e -> terrs e
-  | OSpin -> "spin"
   | OOutOfFuel -> "outoffuel"
 let vals l = String.concat "," (List.map show_v l)
 
